@@ -177,7 +177,7 @@ theorem counters_exact :
 
 /-- `tally` really counts: two frames of 16 bytes on port 2, one on port 4, a packet-in in between -/
 example : tally [{ no := 2 }, { no := 4, txP := 1, txB := 5 }]
-      [.frame 2 (List.replicate 16 0), .packetIn 1 0 [] 0, .frame 4 (List.replicate 16 0), .frame 2 (List.replicate 16 0)]
+      [.frame 2 (List.replicate 16 0), .packetIn 1 0 [] none true, .frame 4 (List.replicate 16 0), .frame 2 (List.replicate 16 0)]
     = [{ no := 2, txP := 2, txB := 32 }, { no := 4, txP := 2, txB := 21 }] := by decide
 
 /-- a history: port 3 is reopened by a port-mod, a frame arrives on port 3 (flow entry: tag it, send it to ALL), a frame
@@ -193,11 +193,14 @@ before it).  For every well-formed frame, every action list with wire-format arg
 table and every flow table whose entries have wire-format arguments and no output to TABLE: the packet-out succeeds, its
 output log is `Spec.emitted` — for each position `i` holding an output, `ser (rewrite (acts.take i) frame)` (lengths and
 RFC 1071 checksums recomputed) on `expand port ingress ports`, a packet-in with that wire form for CONTROLLER, the flow
-table's own reaction for TABLE; nothing after the first action without a handler — and the counters move by `tally`. -/
+table's own reaction for TABLE; nothing after the first action without a handler — with the packet buffers settled in log
+order (`settle`, see `buffers_spec`) — and the counters move by `tally`. -/
 theorem actions_spec (sw : Sw) (acts : List Action) (f : Frame) (inPort : Nat) (hf : f.WF) (ha : ∀ a ∈ acts, ArgsOk a)
     (hr : RulesOk sw.table) :
     packetOut {} sw acts f inPort =
-      .ok ({ sw with stats := tally sw.stats (emitted sw acts f inPort) }, emitted sw acts f inPort) :=
+      .ok ({ sw with stats := tally sw.stats (emitted sw acts f inPort),
+                     bufFree := (settle sw.bufFree (emitted sw acts f inPort)).1 },
+           (settle sw.bufFree (emitted sw acts f inPort)).2) :=
   packetOut_spec sw hr acts ha f hf inPort
 
 example : exFrame.WF ∧ (∀ a ∈ exActs, ArgsOk a) ∧ RulesOk exSw.table := ⟨exFrame_wf, exActs_args, exSw_rules⟩
@@ -207,35 +210,59 @@ rewrite and the priority tag reaches 1 and 4 (2 is NO_FLOOD, 3 the ingress); aft
 enqueue to 1; a 20-byte packet-in; the table entry for port 3 tags the frame and sends it to ALL (1 2 4) — and the
 IN_PORT output that follows TABLE carries that tag too, but port 3 is NO_FWD -/
 example : (emitted exSw exActs exFrame 3).map (fun o => match o with
-      | .frame p b => (p, b.length) | .packetIn _ r d t => (100 + r, d.length + 1000 * t) | _ => (0, 0))
-    = [(2, 45), (1, 49), (4, 49), (1, 45), (101, 20 + 45000), (1, 49), (2, 49), (4, 49)] := by decide +kernel
+      | .frame p b => (p, b.length) | .packetIn _ r d dl _ => (100 + r, d.length + 1000 * dl.getD 0) | _ => (0, 0))
+    = [(2, 45), (1, 49), (4, 49), (1, 45), (101, 45 + 20000), (1, 49), (2, 49), (4, 49)] := by decide +kernel
 
 /-- … and the model computes exactly that (the theorem instantiated, evaluated by the kernel) -/
-example : (packetOut {} exSw exActs exFrame 3).map (·.2) = .ok (emitted exSw exActs exFrame 3) := by
+example : (packetOut {} exSw exActs exFrame 3).map (·.2) = .ok (settle 4096 (emitted exSw exActs exFrame 3)).2 := by
   rw [actions_spec exSw exActs exFrame 3 exFrame_wf exActs_args exSw_rules]; rfl
+
+/-- **The buffer-pool-full path.**  `settle free log` is the log with each packet-in stamped: it got a buffer (id sent,
+data cut to `max_len` / `miss_send_len`: `pinData`) iff fewer than `free` packet-ins precede it in the log; frames, errors
+and the order are untouched; afterwards `free - #packet-ins` buffers are left (never below zero).  With `actions_spec` /
+`rx_spec`: once the pool is exhausted every further packet-in carries the whole packet and no buffer id. -/
+theorem buffers_spec (outs : List Out) (free : Nat) :
+    (settle free outs).1 = free - pins outs ∧ (settle free outs).2.length = outs.length ∧
+    (∀ i : Nat, (settle free outs).2[i]? = (outs[i]?).map (setBuffered (decide (pins (outs.take i) < free)))) ∧
+    (∀ (d : Bytes) (n : Nat), pinData d (some n) true = d.take n ∧ pinData d (some n) false = d ∧ pinData d none true = d) := by
+  obtain ⟨h1, h2, h3⟩ := settle_spec outs free
+  refine ⟨h1, h2, h3, fun d n => ⟨?_, by simp [pinData], rfl⟩⟩
+  simp only [pinData, Bool.true_and]
+  split
+  · rfl
+  · rename_i h; exact (List.take_of_length_le (by simpa using h)).symm
+
+/-- one buffer left, three CONTROLLER outputs with `max_len` 20: the first packet-in is cut to 20 bytes, the other two
+carry all 45 and no buffer id; the pool is empty afterwards -/
+example : (packetOut {} { exSw with bufFree := 1 } [.output P_CONTROLLER 20, .output 2 0, .output P_CONTROLLER 20, .enqueue P_CONTROLLER 0]
+      exFrame 1).map (fun r => (r.1.bufFree, r.2.map fun o => match o with
+        | .packetIn _ _ d dl b => (b, (pinData d dl b).length) | _ => (false, 0)))
+    = .ok (0, [(true, 20), (false, 0), (false, 45), (false, 45)]) := by decide +kernel
 
 /-- **Frames from the wire**: a well-formed frame is processed iff `accepts`; then the receive counters of its port move
 by one frame / its wire length and the output is the flow table's reaction (`Spec.tableOuts`: the matching entry's actions
 as in `actions_spec`, or a packet-in with the first `miss_send_len` bytes *as received* unless the port has NO_PACKET_IN) -/
 theorem rx_spec (sw : Sw) (f : Frame) (inPort : Nat) (wire : Bytes) (hf : f.WF) (hr : RulesOk sw.table) :
     rxWire {} sw f inPort wire =
-      .ok (if accepts sw f inPort then
-             { sw with stats := tally (bumpRx sw inPort wire.length).stats (rxOuts sw f inPort wire) }
-           else sw, rxOuts sw f inPort wire) :=
+      .ok ({ (if accepts sw f inPort then
+                { sw with stats := tally (bumpRx sw inPort wire.length).stats (rxOuts sw f inPort wire) }
+              else sw) with bufFree := (settle sw.bufFree (rxOuts sw f inPort wire)).1 },
+           (settle sw.bufFree (rxOuts sw f inPort wire)).2) :=
   rxWire_spec sw hr f hf inPort wire
 
 /-- … and for a packet object handed to `rx_packet` without its wire bytes (`packet_data = None`): the receive byte
 counter moves by the length of the packet's wire form, and a table miss sends that wire form -/
 theorem rx_obj_spec (sw : Sw) (f : Frame) (inPort : Nat) (hf : f.WF) (hr : RulesOk sw.table) :
     rxObj {} sw f inPort =
-      .ok (if accepts sw f inPort then
-             { sw with stats := tally (bumpRx sw inPort (serF f).length).stats (rxObjOuts sw f inPort) }
-           else sw, rxObjOuts sw f inPort) :=
+      .ok ({ (if accepts sw f inPort then
+                { sw with stats := tally (bumpRx sw inPort (serF f).length).stats (rxObjOuts sw f inPort) }
+              else sw) with bufFree := (settle sw.bufFree (rxObjOuts sw f inPort)).1 },
+           (settle sw.bufFree (rxObjOuts sw f inPort)).2) :=
   rxObj_spec sw hr f hf inPort
 
 /-- port 4 has no flow entry: the 45-byte frame is counted and reported to the controller in full -/
 example : (rxObj {} exSw exFrame 4).map (fun r => (r.1.stats.map fun s => (s.no, s.rxP, s.rxB), r.2.map fun o => match o with
-      | .packetIn p r d t => (p, r, d.length, t) | _ => (0, 0, 0, 0)))
+      | .packetIn p r d dl b => (p, r, (pinData d dl b).length, d.length) | _ => (0, 0, 0, 0)))
     = .ok ([(1, 0, 0), (2, 0, 0), (3, 0, 0), (4, 1, 45)], [(4, 0, 45, 45)]) := by decide +kernel
 
 example : accepts exSw exFrame 3 = true ∧ accepts exSw exFrame 9 = false ∧
